@@ -43,7 +43,8 @@ def actions(quick):
     def f(s):
         if s['kind'] == 'PT':
             return ['terminate']
-        return ['terminate', 'sigkill']
+        # thorough: also KeyboardInterrupt raised at the landing point (what SIGINT does to the main thread of a child)
+        return ['terminate', 'sigkill'] if quick else ['terminate', 'sigkill', 'interrupt']
     return f
 
 
